@@ -4,6 +4,7 @@
 // scratch directory, real log and output files.  Simulated: the kernel (threads' schedule, processes, pipes, SIGCHLD) and the
 // commands themselves (each command is a planned fate looked up from the name of its output file).
 #include <sys/stat.h>
+#include <ftw.h>
 #include <fcntl.h>
 #include <iostream>
 #include <algorithm>
@@ -11,7 +12,18 @@
 #include <sstream>
 #include "../../sim/hutil.h"
 
+#include "MFront/InitDSLs.hxx"
+#include "MFront/InitInterfaces.hxx"
+
 int tfel_check_main(const int, const char* const* const);   // tfel-check.cxx compiled with -Dmain=tfel_check_main
+
+// tfel-check's main registers the DSLs and interfaces of mfront in global factories, which can be done only once per process;
+// tfel-check.cxx is compiled with -DinitDSLs=verifInitDSLsOnce -DinitInterfaces=verifInitInterfacesOnce so that main can be
+// entered twice (sequential reference run, then the explored run)
+namespace mfront {
+void verifInitDSLsOnce() { static bool done = false; if (!done) { done = true; initDSLs(); } }
+void verifInitInterfacesOnce() { static bool done = false; if (!done) { done = true; initInterfaces(); } }
+}
 
 namespace {
 enum { K_EXIT = 0, K_SIGNAL = 1, K_EXECFAIL = 2, K_OUTPUT = 3, K_COMPARE = 4 };
@@ -51,9 +63,12 @@ std::vector<FilePlan> materialise(const hu::Plan& p, const std::string& root) {
         c << "@TestType Absolute;\n@Precision 1.e-6;\n@Test '" << a << "' '" << b << "' 2;\n";
         continue;
       }
+      // a log line is cut at 70 characters: long blocks (over the 8 KiB buffer of the log stream, hence flushed in the middle)
+      // are obtained by repeating the command
+      const long repeat = (it[5] > 0 && kind == K_EXIT) ? std::min<long>(it[5], 12) * 12 : 1;
+      for (long rep = 0; rep < repeat; ++rep) {
       ++ncmd;
       std::string cmd = "vsimcmd_" + std::to_string(f.id) + "_" + std::to_string(ncmd);
-      if (it[5] > 0) { cmd += " "; cmd.append(size_t(std::min<long>(it[5], 12) * 1000), 'x'); }   // long command lines make long log blocks (mid-block flushes)
       vsim::Fate fate; fate.min_steps = int(std::max<long>(0, std::min<long>(it[4] >> 1, 40)));
       const bool shall_fail = (it[4] & 1) != 0;
       std::string opts;
@@ -65,12 +80,18 @@ std::vector<FilePlan> materialise(const hu::Plan& p, const std::string& root) {
       c << "@Command \"" << cmd << "\"";
       if (!opts.empty()) c << " {" << opts << "}";
       c << ";\n";
+      if (repeat > 1) fate.min_steps = 0;
       g_fates[dir_name(f.dir) + "/" + name + "-Exec-" + std::to_string(ncmd) + ".out"] = fate;
+      }
     }
     out.push_back(f);
   }
   return out;
 }
+
+// recursive removal without fork(): forking a process instrumented by ASan is very expensive
+int rm_cb(const char* p, const struct stat*, int, struct FTW*) { return remove(p); }
+void rm_rf(const std::string& d) { nftw(d.c_str(), rm_cb, 32, FTW_DEPTH | FTW_PHYS); }
 
 std::string slurp(const std::string& f) { std::ifstream i(f); std::stringstream s; s << i.rdbuf(); return s.str(); }
 
@@ -87,7 +108,7 @@ std::vector<std::string> blocks_of(const std::string& log, std::string& garbage)
 
 int run_tfel_check(const std::string& root, long njobs, bool discard, bool sync) {
   std::vector<std::string> a = {"tfel-check", "--jobs=" + std::to_string(njobs), "--discard-jobs-limit=true"};
-  if (discard) a.push_back("--discard-commands-failure=true");
+  a.push_back(discard ? "--discard-commands-failure=true" : "--discard-commands-failure=false");
   if (sync) a.push_back("--synchronize-terminal-output=true");
   std::vector<const char*> av; for (auto& s : a) av.push_back(s.c_str());
   (void)root;
@@ -117,7 +138,7 @@ struct H52 : hu::Harness {
         long w = r.range(0, 11), kind, a = 0, b = 0, c = 0;
         if (w < 5) { kind = K_EXIT; a = 0; } else if (w < 7) { kind = K_EXIT; a = r.range(1, 3); } else if (w < 8) { kind = K_SIGNAL; a = 9; } else if (w < 9) { kind = K_EXECFAIL; }
         else if (w < 11) { kind = K_OUTPUT; a = r.chance(3, 4); } else { kind = K_COMPARE; a = r.chance(3, 4); }
-        if (kind != K_COMPARE) { b = (r.range(0, 14) << 1) | (r.chance(1, 8) ? 1 : 0); if (r.chance(1, 10)) c = r.range(9, 12); }
+        if (kind != K_COMPARE) { b = (r.range(0, 14) << 1) | (r.chance(1, 8) ? 1 : 0); if (kind == K_EXIT && r.chance(1, 30)) c = r.range(9, 12); }
         p.ops.push_back({f, d, kind, a, b, c});
       }
     }
@@ -127,12 +148,12 @@ struct H52 : hu::Harness {
   }
   std::string describe(const hu::Plan& p) override {
     auto par = [&p](size_t i, long d) { return p.params.size() > i ? p.params[i] : d; };
-    std::string s = "-j " + std::to_string(par(0, 1)) + (par(1, 0) ? " --discard-commands-failure" : "") + (par(2, 0) ? " --synchronize-terminal-output" : "") + " files:";
+    std::string s = "-j " + std::to_string(par(0, 1)) + (par(1, 0) ? " --discard-commands-failure=true" : " --discard-commands-failure=false") + (par(2, 0) ? " --synchronize-terminal-output" : "") + " files:";
     long cur = -1; size_t n = 0;
     for (auto& o : p.ops) { if (o.size() < 6) continue; if (++n > 30) { s += " ..."; break; }
       if (o[0] != cur) { cur = o[0]; s += " " + dir_name(o[1]) + "/t" + std::to_string(o[0]) + ".check:"; }
       static const char* kn[] = {"exit", "sig", "execfail", "output", "compare"};
-      s += std::string(" ") + kn[std::max<long>(0, std::min<long>(o[2], 4))] + (o[2] == K_EXECFAIL ? "" : std::to_string(o[3])) + ((o[2] != K_COMPARE && (o[4] & 1)) ? "!shall_fail" : "") + (o[5] > 0 ? "+long" : ""); }
+      s += std::string(" ") + kn[std::max<long>(0, std::min<long>(o[2], 4))] + (o[2] == K_EXECFAIL ? "" : std::to_string(o[3])) + ((o[2] != K_COMPARE && (o[4] & 1)) ? "!shall_fail" : "") + (o[5] > 0 && o[2] == K_EXIT ? "x" + std::to_string(std::min<long>(o[5], 12) * 12) : ""); }
     return s;
   }
   // one scenario = the reference run (-j 1, sequential schedule) then the explored run, in two scratch copies
@@ -145,7 +166,7 @@ struct H52 : hu::Harness {
     uint64_t hashes[2] = {0, 0};
     for (int pass = 0; pass < 2; ++pass) {
       const std::string root = g_root + (pass ? "/run" : "/ref");
-      std::string rm = "rm -rf '" + root + "'"; if (system(rm.c_str()) != 0) {}
+      rm_rf(root);
       mkdir(root.c_str(), 0755);
       auto files = materialise(plan, root);
       if (chdir(root.c_str()) != 0) { out.cls = "harness-error"; out.detail = "chdir"; return out; }
@@ -168,11 +189,21 @@ struct H52 : hu::Harness {
     if (status[0] < 0 || status[1] < 0) fail("tfel-check-threw", "tfel-check's main threw: " + out.detail);
     if (blocks[0].size() != nfiles) fail("reference-run-inconsistent", "the sequential reference run logged " + std::to_string(blocks[0].size()) + " blocks for " + std::to_string(nfiles) + " check files");
     if (status[1] != status[0]) fail("verdict-depends-on-schedule", "exit status " + std::to_string(status[1]) + " with -j " + std::to_string(nj) + " under this schedule, " + std::to_string(status[0]) + " for the sequential run");
-    // plan-derived verdict where the semantics leave no doubt: no shall_fail, no --discard-commands-failure
-    bool simple = par(1, 0) == 0, anyfail = false;
-    for (auto& o : plan.ops) { if (o.size() < 6) continue; if (o[2] != K_COMPARE && (o[4] & 1)) simple = false;
-      if ((o[2] == K_EXIT && (o[3] & 0xff) != 0) || o[2] == K_SIGNAL || o[2] == K_EXECFAIL || (o[2] == K_OUTPUT && o[3] == 0) || (o[2] == K_COMPARE && o[3] == 0)) anyfail = true; }
-    if (simple && status[1] >= 0 && (status[1] != 0) != anyfail) fail("wrong-verdict", std::string("tfel-check exited with ") + std::to_string(status[1]) + " although " + (anyfail ? "at least one check fails" : "every check passes"));
+    // plan-derived verdict, from the documented semantics (docs/web/tfel-check.md): a check file fails when one of its comparisons fails,
+    // or when one of its commands fails and either --discard-commands-failure=false or the file declares no comparison.
+    // Files using shall_fail are left to the differential oracle only.
+    bool simple = true, anyfail = false;
+    { std::map<long, std::vector<const std::vector<long>*>> byfile;
+      for (auto& o : plan.ops) if (o.size() >= 6) byfile[o[0]].push_back(&o);
+      for (auto& kv : byfile) {
+        bool cmdfail = false, cmpfail = false, hascmp = false;
+        for (auto po : kv.second) { auto& o = *po;
+          if (o[2] != K_COMPARE && (o[4] & 1)) simple = false;
+          if (o[2] == K_COMPARE) { hascmp = true; if (o[3] == 0) cmpfail = true; }
+          else if ((o[2] == K_EXIT && (o[3] & 0xff) != 0) || o[2] == K_SIGNAL || o[2] == K_EXECFAIL || (o[2] == K_OUTPUT && o[3] == 0)) cmdfail = true; }
+        if (cmpfail || (cmdfail && (par(1, 0) == 0 || !hascmp))) anyfail = true;
+      } }
+    if (simple && status[1] >= 0 && (status[1] != 0) != anyfail) fail("wrong-verdict", std::string("tfel-check exited with ") + std::to_string(status[1]) + " although " + (anyfail ? "at least one check fails" : "every check passes") + " (documented semantics)");
     if (!garbage[1].empty()) fail("log-corrupted", "text outside any block in tfel-check.log: " + garbage[1].substr(0, 120));
     if (blocks[1] != blocks[0]) {
       std::string d = "tfel-check.log holds " + std::to_string(blocks[1].size()) + " blocks, the sequential run " + std::to_string(blocks[0].size());
@@ -196,6 +227,6 @@ int main(int argc, char** argv) {
   mkdir(g_root.c_str(), 0755);
   g_root += "/p" + std::to_string(long(getpid()));   // private to this process (the name never reaches an oracle: paths are normalised)
   mkdir(g_root.c_str(), 0755);
-  atexit([] { std::string rm = "rm -rf '" + g_root + "'"; if (system(rm.c_str()) != 0) {} });
+  atexit([] { rm_rf(g_root); });
   H52 h; return hu::harness_main(argc, argv, h);
 }
